@@ -682,7 +682,10 @@ fn chunking<F: Family>(report: &Report, tier: Tier, key: &[u8; 40], kr: &KeyResu
 }
 
 pub fn keys_for<F: Family>(tier: Tier, seed: u64) -> Vec<[u8; 40]> {
+    // keys of one repeated byte (under which the key POSITION is invisible in the Vanilla cipher) go to the back: the passes
+    // that only take the first few keys must get position-dependent ones
     let mut keys = key40s(seed, 2);
+    keys.sort_by_key(|k| k.iter().all(|b| *b == k[0]));
     if F::ID == "C07" {
         // rotating keys put every byte value at every key position
         let n = tier.pick(64usize, 256usize);
